@@ -563,9 +563,18 @@ class CallMixin:
         ext = self.engine.extern(name)
         if ext is not None:
             return ext(self, args, kwargs)
+        if name in ("isinstance", "min", "max", "abs", "int", "float", "sum", "sorted", "round", "bool", "ord", "tuple", "dict", "zip",
+                    "enumerate", "any", "all", "next", "iter", "reversed", "str") \
+                and any(isinstance(a, Opaque) or getattr(a, "unknown", False) for a in args):
+            if name in ("int", "float"):
+                ctx.may_raise(z3.Bool(ctx.fresh_name("conv_fails")), "ValueError", f"{name}(opaque)") \
+                    if self.engine.exception_expected(ctx, "ValueError") else None
+            return Opaque(f"{name}()", fresh=True)
         if name == "len":
             return self.seq_len(args[0])
         if name == "range":
+            if any(isinstance(a, Opaque) for a in args):
+                return Opaque("range()", fresh=True)
             if len(args) == 1:
                 return RangeV(0, args[0])
             if len(args) == 2:
